@@ -145,7 +145,9 @@ def tiny_relation(ctx, mode, configs, nproc=12):
         ctx.build_harness(tags=("g_merkle",))
     except Infra as e:
         # this leg is written against the InsertionProof / DeletionProof gadget structs; if their API was refactored it cannot be
-        # compiled — the other legs (full circuits) do not depend on it
+        # compiled — the other legs (full circuits) do not depend on it.  Any OTHER compile error is a bug of the harness itself.
+        if "prover." not in str(e):
+            raise
         ctx.cov["tiny_field_relation"] = "skipped: gadget-level driver does not compile against this tree (%s)" % str(e).splitlines()[-1][:160]
         return 0
     for p, d, b in configs:
